@@ -459,7 +459,7 @@ theorem volOk_insertPosting (A : ADB) (txSeq : Val) (l : String) (ins : Val) (ef
     intro e; simp [e] at hex
   have hno : A.accounts.any (acctKey l p.destination) = false := by simpa [hne] using hex
   rw [aInsertMove_eq _ _ _ _ _ _ _ _ _ _ _ s2.mv_lt]
-  simp only [aInsertMove_accounts, hm2]
+  simp only [hm2]
   intro r hr
   have hd : acctSeqOf { (aUpsertAccount (aUpsertAccount A l p.source (amKvs am p.source) ins) l p.destination (amKvs am p.destination) ins) with
       moves := A.moves.map (patchMove eff p.asset p.amount true (A.accounts.any (acctKey l p.source))
